@@ -24,9 +24,13 @@ order without overlapping; `PathTo t ks n` — node `n` is reached from `t` thro
 Restricted statements (never weakened silently):
 * `C08_reachable_wf` takes one hypothesis beyond C03's: `CustomGood E` — user-written `custom`
   converters (whose trees the model cannot see into) report well-formed trees themselves;
-* `C08_value_shown_partial`: a sum root shows the input only for unions nested at most two deep over
-  self-inspecting converters; the unrestricted statement is false (`C08_value_shown_full_fails`, D13);
-  `C08_footer_exact` says exactly which value the footer shows;
+* `C08_value_shown_sum`: a sum root shows the input for unions, nested to ANY depth, over self-inspecting
+  converters (`Conv.recordsInputDeep`).  Finding D13 (nested sums were flattened one level only, so three
+  unions deep the footer showed `None`) is fixed in the source: `_flatten_sum` is recursive, the former
+  negation witness is now the positive regression theorem `C08_d13_fixed` / `C08_d13_footer_fixed`.  The
+  restriction to self-inspecting members stays (a member such as a condition, an enum, a tagged union or a
+  `custom` converter need not record the input itself); `C08_footer_exact` says exactly which value the footer
+  shows for every tree;
 * in `C08_missing_shown` / `C08_extra_shown` the fused path prefix of the line is existentially
   quantified (it is not identified with the dotted keys of the chain).
 -/
@@ -199,8 +203,8 @@ theorem C08_value_shown_product {t l : Err} (hp : ProdPathTo t l) (hl : l.isLeaf
   (value_of_prodPath hp hl ha).1 indent false (.inr rfl)
 
 /-- **C08 (value shown, sum root — exact).**  The footer `Instead got …` of a sum shows the `actual` of
-the last of its printed members (nested sums flattened one level) that has one; `None` if there is no
-such member. -/
+the last of its printed members (`flatMembers`: nested sums flattened recursively, at every depth — no
+printed member is a sum, `flatMembers_not_sum`) that has one; `None` if there is no such member. -/
 theorem C08_footer_exact (ch : List Err) (indent : String) (inSum : Bool) :
     ∃ segs, render E (.sum ch) indent inSum =
       [Seg.lit "Expected one of:\n"] ++ segs ++
@@ -211,78 +215,123 @@ theorem C08_footer_exact (ch : List Err) (indent : String) (inSum : Bool) :
   refine ⟨(renderSum E ch indent Val.none).1, ?_⟩
   rw [render_sum, renderSum_snd, foldl_nextAct]
 
-/-- **C08 (value shown, sum root — partial).**  The full statement — for every union `cs` and input `v`,
-`colC E (.union cs) v = .ok (some (.sum ts)) → footerVal ts = v` — is FALSE (finding D13, see
-`C08_value_shown_full_fails`).  What holds: for a union, nested at most two deep, of converters
-that inspect the input themselves (`Conv.recordsInput`: `None`, scalars, literals, datetimes, tuples,
-sequences, dicts, struct literals, dataclasses), the footer of the rendered sum shows the input. -/
-theorem C08_value_shown_partial (cs : List Conv) (hne : cs ≠ [])
+/-- a converter that inspects the input itself reports a node that is printed as it is and records the input -/
+theorem C08.leaf_flat {c : Conv} (hr : c.recordsInput = true) (v : Val) {t : Err}
+    (h : colC E c v = .ok (some t)) : (∀ m ∈ t.flat, m.actual? = some v) ∧ t.flat ≠ [] := by
+  have ha := C07_leaf_actual c hr v h
+  have hs : t.isSum = false := by cases t <;> first | rfl | cases ha
+  rw [Err.flat_nonsum hs]
+  exact ⟨fun m hm => (List.mem_singleton.1 hm) ▸ ha, by simp⟩
+
+section Deep
+
+mutual
+/-- every fully flattened member of the report of a `recordsInputDeep` converter on `v` records `v`, and
+there is at least one -/
+theorem C08.deep (v : Val) : (c : Conv) → c.recordsInputDeep = true → (t : Err) → colC E c v = .ok (some t) →
+    (∀ m ∈ t.flat, m.actual? = some v) ∧ t.flat ≠ []
+  | .union ds, h, t, hcol => by
+    obtain ⟨hne, hds⟩ := Conv.recordsInputDeep_union.1 h
+    obtain ⟨ts, rfl⟩ := C07_union_is_sum ds v hcol
+    obtain ⟨hlen, hmem⟩ := C07_sum_children ds v hcol
+    rw [Err.flat_sum]
+    have := C08.deeps v ds (recordsInputDeepList_iff.2 hds) ts hlen (fun i h1 h2 => (hmem i h1 h2).1)
+    exact ⟨this.1, this.2 hne⟩
+  | .any, h, t, hcol | .noneC, h, t, hcol | .scalar .., h, t, hcol | .datetime _, h, t, hcol
+  | .literal _, h, t, hcol | .custom _, h, t, hcol | .tuple _, h, t, hcol | .tagged .., h, t, hcol
+  | .struct .., h, t, hcol | .dict .., h, t, hcol | .seq .., h, t, hcol | .cond .., h, t, hcol
+  | .enum .., h, t, hcol | .delegate .., h, t, hcol | .pattern .., h, t, hcol | .nested _, h, t, hcol
+  | .pane .., h, t, hcol => by
+    rcases Conv.recordsInputDeep_iff.1 h with hr | ⟨_, hd, _⟩
+    · exact C08.leaf_flat hr v hcol
+    · cases hd
+theorem C08.deeps (v : Val) : (cs : List Conv) → recordsInputDeepList cs = true → (ts : List Err) →
+    ts.length = cs.length →
+    (∀ (i : Nat) (h1 : i < cs.length) (h2 : i < ts.length), colC E cs[i] v = .ok (some ts[i])) →
+    (∀ m ∈ flatMembers ts, m.actual? = some v) ∧ (cs ≠ [] → flatMembers ts ≠ [])
+  | [], _, [], _, _ => by
+    rw [flatMembers_nil]
+    exact ⟨fun m hm => (nomatch hm), fun h => absurd rfl h⟩
+  | [], _, _ :: _, hl, _ => by simp at hl
+  | _ :: _, _, [], hl, _ => by simp at hl
+  | c :: cs, h, t :: ts, hl, hm => by
+    simp only [recordsInputDeepList, Bool.and_eq_true] at h
+    have h0 := C08.deep v c h.1 t (hm 0 (by simp) (by simp))
+    have hr := C08.deeps v cs h.2 ts (by simpa using hl)
+      (fun i h1 h2 => hm (i + 1) (by simpa using h1) (by simpa using h2))
+    rw [flatMembers_cons]
+    refine ⟨fun m hm' => ?_, fun _ hnil => h0.2 (List.append_eq_nil_iff.1 hnil).1⟩
+    rcases List.mem_append.1 hm' with h1 | h1
+    · exact h0.1 m h1
+    · exact hr.1 m h1
+end
+
+end Deep
+
+/-- **C08 (value shown, sum root — full).**  For a union, nested to ANY depth, of converters that inspect
+the input themselves (`Conv.recordsInputDeep`: `recordsInput` — `None`, scalars, literals, datetimes,
+tuples, sequences, dicts, struct literals, dataclasses — or a non-empty union of `recordsInputDeep`
+converters), the footer of the rendered sum shows the input: every fully flattened member is the report
+of a `recordsInput` converter on `v`, hence records `v`, and there is at least one.  (Before the fix of
+finding D13 — `_flatten_sum` flattened one level only — this held for two levels only.) -/
+theorem C08_value_shown_sum (cs : List Conv) (hne : cs ≠ [])
+    (hcs : ∀ c ∈ cs, c.recordsInputDeep = true)
+    (v : Val) {ts : List Err} (h : colC E (.union cs) v = .ok (some (.sum ts))) :
+    footerVal ts = v := by
+  have hd := C08.deep (E := E) v (.union cs) (Conv.recordsInputDeep_union.2 ⟨hne, hcs⟩) (.sum ts) h
+  rw [Err.flat_sum] at hd
+  unfold footerVal
+  rw [← foldl_nextAct]
+  exact foldl_nextAct_const hd.2 hd.1 Val.none
+
+/-- … and the rendered text ends with the footer showing `v` -/
+theorem C08_value_shown_sum_render (cs : List Conv) (hne : cs ≠ [])
+    (hcs : ∀ c ∈ cs, c.recordsInputDeep = true)
+    (v : Val) {ts : List Err} (h : colC E (.union cs) v = .ok (some (.sum ts))) (indent : String) (inSum : Bool) :
+    ∃ segs, render E (.sum ts) indent inSum =
+      [Seg.lit "Expected one of:\n"] ++ segs ++
+        [.lit (indent ++ "Instead got `"), .val v, .lit "` of type `", .typ v, .lit "`\n"] := by
+  have hv := C08_value_shown_sum cs hne hcs v h
+  unfold footerVal at hv
+  obtain ⟨segs, hs⟩ := C08_footer_exact (E := E) ts indent inSum
+  rw [hv] at hs
+  exact ⟨segs, hs⟩
+
+/-- **C08 (value shown, sum root — the former two-level statement)**, now a corollary: unions nested at
+most two deep over self-inspecting converters. -/
+theorem C08_value_shown_two_levels (cs : List Conv) (hne : cs ≠ [])
     (hcs : ∀ c ∈ cs, c.recordsInput = true ∨
       ∃ ds, c = .union ds ∧ ds ≠ [] ∧ ∀ d ∈ ds, d.recordsInput = true)
     (v : Val) {ts : List Err} (h : colC E (.union cs) v = .ok (some (.sum ts))) :
     footerVal ts = v := by
-  obtain ⟨hlen, hmem⟩ := C07_sum_children cs v h
-  unfold footerVal
-  rw [← foldl_nextAct]
-  -- every member is the report of some variant on `v`
-  have hidx : ∀ m ∈ ts, ∃ c ∈ cs, colC E c v = .ok (some m) := by
-    intro m hm
-    obtain ⟨i, hi⟩ := List.mem_iff_getElem?.1 hm
-    obtain ⟨hi2, hm'⟩ := List.getElem?_eq_some_iff.1 hi
-    have hi1 : i < cs.length := hlen ▸ hi2
-    exact ⟨cs[i], List.getElem_mem hi1, hm' ▸ (hmem i hi1 hi2).1⟩
-  -- every printed member records `v`
-  have hall : ∀ m ∈ flatMembers ts, m.actual? = some v := by
-    intro m hm
-    rcases mem_flatMembers hm with ⟨hmts, hs⟩ | ⟨inner, hin, hminner⟩
-    · obtain ⟨c, hc, hcol⟩ := hidx m hmts
-      rcases hcs c hc with hr | ⟨ds, rfl, -, -⟩
-      · exact C07_leaf_actual _ hr v hcol
-      · obtain ⟨ts', rfl⟩ := C07_union_is_sum ds v hcol
-        cases hs
-    · obtain ⟨c, hc, hcol⟩ := hidx _ hin
-      rcases hcs c hc with hr | ⟨ds, rfl, -, hds⟩
-      · have := C07_leaf_actual _ hr v hcol; cases this
-      · obtain ⟨hlen', hmem'⟩ := C07_sum_children ds v hcol
-        obtain ⟨p, hp⟩ := List.mem_iff_getElem?.1 hminner
-        obtain ⟨hp2, hm'⟩ := List.getElem?_eq_some_iff.1 hp
-        have hp1 : p < ds.length := hlen' ▸ hp2
-        exact C07_leaf_actual _ (hds _ (List.getElem_mem hp1)) v (hm' ▸ (hmem' p hp1 hp2).1)
-  -- and there is at least one
-  have hne' : flatMembers ts ≠ [] := by
-    have h0 : 0 < cs.length := List.length_pos_iff.2 hne
-    have h0' : 0 < ts.length := hlen ▸ h0
-    have hcol0 := (hmem 0 h0 h0').1
-    rcases hcs cs[0] (List.getElem_mem h0) with hr | ⟨ds, hd, hdne, -⟩
-    · have ha := C07_leaf_actual _ hr v hcol0
-      refine flatMembers_ne_nil_of_nonsum (List.getElem_mem h0') ?_
-      cases hts : ts[0] <;> first | rfl | (rw [hts] at ha; cases ha)
-    · rw [hd] at hcol0
-      obtain ⟨ts', hts'⟩ := C07_union_is_sum ds v hcol0
-      rw [hts'] at hcol0
-      have hl' := (C07_sum_children ds v hcol0).1
-      refine flatMembers_ne_nil_of_sum (inner := ts') (hts' ▸ List.getElem_mem h0') ?_
-      intro h0; rw [h0] at hl'
-      exact hdne (List.length_eq_zero_iff.1 hl'.symm)
-  exact foldl_nextAct_const hne' hall Val.none
+  refine C08_value_shown_sum cs hne (fun c hc => ?_) v h
+  rcases hcs c hc with hr | ⟨ds, rfl, hdne, hds⟩
+  · exact Conv.recordsInputDeep_of_recordsInput hr
+  · exact Conv.recordsInputDeep_union.2 ⟨hdne, fun d hd => Conv.recordsInputDeep_of_recordsInput (hds d hd)⟩
 
-/-- **Negation witness of the unrestricted statement (known finding D13).**  Three unions deep, the
-footer of the rendered sum shows `None` instead of the input: the members of a nested sum are flattened
-one level only, and a sum node has no `actual` to thread.  (`Union[Union[Union[int]]]` on `"a"`; the
-innermost leaf does record `"a"`.) -/
-theorem C08_value_shown_full_fails :
-    ∃ (cs : List Conv) (v : Val) (ts : List Err),
-      colC extRaising (.union cs) v = .ok (some (.sum ts)) ∧ footerVal ts = Val.none ∧ footerVal ts ≠ v :=
-  ⟨[.union [.union [exInt]]], .str "a", [.sum [.sum [.wrongType "an int" (.str "a") none none]]],
-    by with_unfolding_all rfl, rfl, fun h => nomatch h⟩
+/-- **Regression theorem for finding D13 (fixed).**  The former negation witness of the unrestricted
+statement — `Union[Union[Union[int]]]` on `"a"`, three unions deep, where the footer used to show `None`
+because the members of a nested sum were flattened one level only — now shows the input. -/
+theorem C08_d13_fixed :
+    ∃ ts : List Err, colC extRaising (.union [.union [.union [exInt]]]) (.str "a") = .ok (some (.sum ts)) ∧
+      ts = [.sum [.sum [.wrongType "an int" (.str "a") none none]]] ∧ footerVal ts = .str "a" := by
+  have h : colC extRaising (.union [.union [.union [exInt]]]) (.str "a") =
+      .ok (some (.sum [.sum [.sum [.wrongType "an int" (.str "a") none none]]])) := by with_unfolding_all rfl
+  exact ⟨_, h, rfl, C08_value_shown_sum [.union [.union [exInt]]] (by simp) (by decide) (.str "a") h⟩
 
 /-- the same on the bare tree of the finding: `sum [sum [sum [wrongType "x" 1]]]` renders a footer
-showing `None` -/
-theorem C08_d13_footer (indent : String) (inSum : Bool) :
+showing `1` (it used to show `None`) -/
+theorem C08_d13_footer_fixed (indent : String) (inSum : Bool) :
     ∃ segs, render E (.sum [.sum [.sum [.wrongType "x" (.int 1) none none]]]) indent inSum =
       [Seg.lit "Expected one of:\n"] ++ segs ++
-        [.lit (indent ++ "Instead got `"), .val Val.none, .lit "` of type `", .typ Val.none, .lit "`\n"] :=
+        [.lit (indent ++ "Instead got `"), .val (.int 1), .lit "` of type `", .typ (.int 1), .lit "`\n"] :=
   C08_footer_exact _ indent inSum
+
+/-- … and the whole text of that tree: one member line, the leaf (no `Expected one of:` of a nested sum) -/
+example : render extRaising (.sum [.sum [.sum [.wrongType "x" (.int 1) none none]]]) "" false =
+    [.lit "Expected one of:\n", .lit "- ", .lit "x\n",
+     .lit "Instead got `", .val (.int 1), .lit "` of type `", .typ (.int 1), .lit "`\n"] := by
+  simp [render, renderSum]
 
 /-! ## Causes -/
 
@@ -387,8 +436,17 @@ example : Seg.val (.str "b") ∈ render extRaising (.wrongType "an int" (.str "b
 example : footerVal [Err.wrongType "sequence of ints" (.dict [(.str "x", .str "no")]) none none,
     .product "struct Point" [.str "x"] [.wrongType "an int" (.str "no") none none]
       (.dict [(.str "x", .str "no")]) [] []] = .dict [(.str "x", .str "no")] :=
-  C08_value_shown_partial (E := extRaising) [.seq "list" exInt, .pane exPoint [exInt, exInt]] (by simp)
+  C08_value_shown_sum (E := extRaising) [.seq "list" exInt, .pane exPoint [exInt, exInt]] (by simp)
+    (by intro c hc; simp at hc; rcases hc with rfl | rfl <;> rfl) _ exUnion_tree
+example : footerVal [Err.wrongType "sequence of ints" (.dict [(.str "x", .str "no")]) none none,
+    .product "struct Point" [.str "x"] [.wrongType "an int" (.str "no") none none]
+      (.dict [(.str "x", .str "no")]) [] []] = .dict [(.str "x", .str "no")] :=
+  C08_value_shown_two_levels (E := extRaising) [.seq "list" exInt, .pane exPoint [exInt, exInt]] (by simp)
     (by intro c hc; simp at hc; rcases hc with rfl | rfl <;> exact .inl rfl) _ exUnion_tree
+/-- `recordsInputDeep` is not vacuous, and it does exclude members that need not record the input -/
+example : (Conv.union [.union [.union [exInt]], .noneC]).recordsInputDeep = true := by decide
+example : (Conv.union [.union [], exInt]).recordsInputDeep = false := by decide
+example : (Conv.union [.any]).recordsInputDeep = false := by decide
 
 -- causes
 example : ∃ ind, Seg.cause ind "boom" ∈ render extRaising exChain "" false :=
@@ -409,9 +467,11 @@ example : ∃ ind, Seg.cause ind "boom" ∈ render extRaising exChain "" false :
 #print axioms C08_value_shown_leaf
 #print axioms C08_value_shown_product
 #print axioms C08_footer_exact
-#print axioms C08_value_shown_partial
-#print axioms C08_value_shown_full_fails
-#print axioms C08_d13_footer
+#print axioms C08_value_shown_sum
+#print axioms C08_value_shown_sum_render
+#print axioms C08_value_shown_two_levels
+#print axioms C08_d13_fixed
+#print axioms C08_d13_footer_fixed
 #print axioms C08_cause_shown
 #print axioms extRaising_customGood
 
